@@ -5,6 +5,7 @@ import (
 	"crypto/cipher"
 	"encoding/binary"
 	"encoding/hex"
+	"errors"
 	"fmt"
 	"io"
 	"path/filepath"
@@ -141,37 +142,67 @@ func NewEncryptedISO(f afero.File, data1 []byte, clearRegions bool) (*EncryptedI
 		regionsHeaderSize: sizeBytes(binary.Size(hdr) + binary.Size(unencryptedRegions)),
 		privateFile:       f,
 		encryptedRegions:  encryptedRegions,
+		cip:               cip,
 		cbcDec:            cipher.NewCBCDecrypter(cip, iv[:]).(cbcMode),
 		iv:                iv[:],
 	}, nil
 }
 
 func (e *EncryptedISO) Read(b []byte) (int, error) {
-	readStart := e.offset
-
-	read, err := e.privateFile.Read(b)
-	if err != nil || read == 0 {
-		return read, err
-	}
-
+	read, err := e.ReadAt(b, int64(e.offset))
 	e.offset += sizeBytes(read)
-	e.clearRegionsData(readStart, b[:read])
-	e.decryptData(readStart, b[:read], false)
-	return read, nil
+	return read, err
 }
 
+// ReadAt reads and decrypts data. Decryption works only with whole sectors, so for offset or length
+// not aligned to sector size it reads all sectors covering requested range to temporary buffer.
 func (e *EncryptedISO) ReadAt(b []byte, off int64) (int, error) {
-	read, err := e.privateFile.ReadAt(b, off)
-	if err != nil || read == 0 {
-		return read, err
+	if len(b) == 0 {
+		return 0, nil
+	}
+	if off < 0 {
+		return 0, afero.ErrOutOfRange
 	}
 
-	e.clearRegionsData(sizeBytes(off), b[:read])
-	e.decryptData(sizeBytes(off), b[:read], true)
-	return read, nil
+	start, end := sizeBytes(off), sizeBytes(off)+sizeBytes(len(b))
+	alignedStart, alignedEnd := start.floorSectors().bytes(), end.sectors().bytes()
+
+	buf := b
+	if alignedStart != start || alignedEnd != end {
+		buf = make([]byte, alignedEnd-alignedStart)
+	}
+
+	read, err := e.privateFile.ReadAt(buf, int64(alignedStart))
+	if err != nil && !errors.Is(err, io.EOF) {
+		return 0, err
+	}
+
+	data := buf[:read]
+	e.clearRegionsData(alignedStart, data)
+	e.decryptData(alignedStart, data, true)
+
+	if sizeBytes(len(data)) <= start-alignedStart {
+		return 0, io.EOF
+	}
+
+	data = data[start-alignedStart:]
+	if sizeBytes(len(data)) < sizeBytes(len(b)) {
+		return copy(b, data), io.EOF
+	}
+
+	if alignedStart != start || alignedEnd != end {
+		copy(b, data)
+	}
+
+	return len(b), nil
 }
 
 func (e *EncryptedISO) Seek(offset int64, whence int) (int64, error) {
+	if whence == io.SeekCurrent {
+		// position of underlying file is not moved by Read so count from our own one
+		offset, whence = offset+int64(e.offset), io.SeekStart
+	}
+
 	newOffset, err := e.privateFile.Seek(offset, whence)
 	if err != nil {
 		return newOffset, err
@@ -191,16 +222,16 @@ func (e *EncryptedISO) clearRegionsData(start sizeBytes, data []byte) {
 	}
 }
 
+// decryptData decrypts whole sectors of data which starts from sector boundary.
 func (e *EncryptedISO) decryptData(start sizeBytes, data []byte, cloneCBC bool) {
-	end := start + sizeBytes(len(data))
+	startSector := start.floorSectors()
+	endSector := (start + sizeBytes(len(data))).floorSectors() // incomplete sector at the end can't be decrypted
 	for _, region := range e.encryptedRegions {
-		if region.end <= start.sectors() || region.start > end.sectors() { // not covered
+		if region.end <= startSector || region.start >= endSector { // not covered
 			continue
 		}
 
-		startSector := max(region.start, start.floorSectors())
-		endSector := min(region.end, end.sectors())
-		for i := startSector; i < endSector; i++ {
+		for i := max(region.start, startSector); i < min(region.end, endSector); i++ {
 			encryptedSpan := data[i.bytes()-start : i.next().bytes()-start]
 			e.setIVForSector(i, cloneCBC).CryptBlocks(encryptedSpan, encryptedSpan)
 		}
